@@ -19,12 +19,26 @@ THEOREMS = {
 
 
 def g_dspec(d):
+    if d.get("pat"):
+        return "(DPat %s)" % gN(d["len"])
     if d.get("gen"):
         return "(DGen %s %s)" % (gN(d["seed"]), gN(d["len"]))
     return "(DLit %s)" % gbytes(d.get("lit") or [])
 
 
 def g_wobs(w):
+    if w.get("samp"):
+        # sampled positions + the last 24 bytes, ascending, as (distance from the previous one, byte)
+        n = w["len"]
+        pos = dict(zip(w.get("idx") or [], w.get("val") or []))
+        suf = w.get("suf") or []
+        for k, v in enumerate(suf):
+            pos[n - len(suf) + k] = v
+        out, prev = [], 0
+        for i in sorted(pos):
+            out.append(gpair(gN(i - prev), gN(pos[i])))
+            prev = i
+        return "(WSamp %s %s []%%N %s)" % (gN(n), gbytes(w.get("pre") or []), glist(out))
     if w.get("sum"):
         return "(WSum %s %s %s)" % (gN(w["len"]), gbytes(w.get("pre") or []), gN(w["adler"]))
     return "(WLit %s)" % gbytes(w.get("lit") or [])
@@ -81,7 +95,7 @@ def t_wt(r):
 
 def t_wtlen(r):
     return gpair(gN(r["n"]), gbool(r["b"]), gbytes(r["hdr"]), gN(r["wlen"]), g_cls(r["class"]), gbool(r["same"]),
-                 gN(r["rest"]), g_nlist(r["reqs"]), gN(r["alloc"]))
+                 gN(r["rest"]), g_nlist(r["reqs"]), gN(r["alloc"]), gbool(r["next"]), gbool(r["rej"]))
 
 
 def t_wtdec(r):
@@ -89,7 +103,14 @@ def t_wtdec(r):
 
 
 def form_of(n):
-    return "1B" if n < 126 else ("3B" if n < 65536 else "9B")
+    if n < 126:
+        return "1B"
+    if n < 65536:
+        return "3B"
+    k, b = 0, 65536
+    while 2 * b <= n:
+        k, b = k + 1, 2 * b
+    return "9B:grow%d%s" % (k, "+" if n > b + b // 2 else "")   # regime of the chunked reader
 
 
 # per suite: term builder, non-trivial key (or None), distribution bucket, description of a failing case
@@ -250,7 +271,7 @@ def run(ctx):
     jobs = []
     t0 = time.time()
     collect(ctx, vh, jobs, "b64", ["-n", 150 if q else 6000], shard=350 if q else 1000)
-    collect(ctx, vh, jobs, "pkt", ["-n", 60 if q else 3000], shard=90 if q else 400)
+    collect(ctx, vh, jobs, "pkt", ["-n", 60 if q else 3000] + ([] if q else ["-thorough"]), shard=60 if q else 400)
     collect(ctx, vh, jobs, "dec", ["-n", 300 if q else 12000, "-ex", 3 if q else 5], shard=600 if q else 2500)
     collect(ctx, vh, jobs, "pay", ["-n", 60 if q else 3000], shard=31 if q else 400)
     collect(ctx, vh, jobs, "paydec", ["-n", 150 if q else 6000], shard=200 if q else 1000)
@@ -261,8 +282,12 @@ def run(ctx):
         collect(ctx, vh, jobs, "wtlen", ["-lo", 0, "-hi", 300, "-stride", 1], shard=300, label="wtlen-low")
         collect(ctx, vh, jobs, "wtlen", ["-lo", 65400, "-hi", 65700, "-stride", 1], shard=300, label="wtlen-boundary")
         collect(ctx, vh, jobs, "wtlen", ["-lo", 301, "-hi", 70000, "-stride", 263], shard=300, label="wtlen-stride")
+        # large frames: both sides of every size at which the chunked reader changes regime
+        collect(ctx, vh, jobs, "wtlen", ["-growth", "-hi", 1100000], shard=12, label="wtlen-growth")
     else:
         collect(ctx, vh, jobs, "wtlen", ["-lo", 0, "-hi", 70000, "-stride", 1], shard=5000, label="wtlen-all")
+        collect(ctx, vh, jobs, "wtlen", ["-growth", "-hi", 4300000], shard=8, label="wtlen-growth")
+        collect(ctx, vh, jobs, "wtlen", ["-lo", 70001, "-hi", 2200000, "-stride", 1021], shard=40, label="wtlen-sweep")
     t1 = time.time()
     evaluate(ctx, jobs)
     ctx.note("harness %.1fs, kernel evaluation of %d cases in %.1fs" % (t1 - t0, sum(len(j["rows"]) for j in jobs), time.time() - t1))
